@@ -25,7 +25,7 @@ class Target:
         self.bs = blocksize
         self.nblocks = nblocks
         self.vendor, self.product, self.rev = vendor, product, rev
-        self.inquiry_length = 96  # 36 = the minimum standard INQUIRY data
+        self.inquiry_length = 96  # 36 = the minimum standard INQUIRY data, 260 the maximum (ADDITIONAL LENGTH FFh)
         self.store = {}
         self.log = []
         self.anomalies = []
@@ -45,9 +45,10 @@ class Target:
         f = D.FORMATS["inquiry.standard"]
         v = {k: 0 for k in f.st.names()}
         v.update({"peripheral_qualifier": self.qualifier, "peripheral_device_type": self.devtype, "version": 6, "response_data_format": 2,
-                  "additional_length": self.inquiry_length - 5, "_total": self.inquiry_length, "t10_vendor_identification": self.vendor, "product_identification": self.product,
+                  "additional_length": self.inquiry_length - 5, "_total": min(self.inquiry_length, 96), "t10_vendor_identification": self.vendor, "product_identification": self.product,
                   "product_revision_level": self.rev, "cmdque": 1})
-        return f.encode(v)
+        # beyond byte 95: vendor specific parameters (ADDITIONAL LENGTH up to 255, i.e. up to 260 bytes)
+        return f.encode(v) + bytes((0xA0 + i) & 0xFF for i in range(max(0, self.inquiry_length - 96)))
 
     def read_block(self, lba):
         return self.store.get(lba, bytes(self.bs))
